@@ -1,0 +1,361 @@
+/**
+ * @file verif_trace.h
+ * Trace hooks for external model-based verification.
+ * Everything in here is compiled only when UNC_VERIF is defined and does
+ * nothing unless the environment variable UNC_VERIF_TRACE names a file.
+ * The hooks only read state; they never change control flow or data.
+ */
+
+#ifndef VERIF_TRACE_H_INCLUDED
+#define VERIF_TRACE_H_INCLUDED
+
+#ifdef UNC_VERIF
+
+#include "chunk.h"
+#include "options_for_QT.h"
+#include "uncrustify.h"
+#include "uncrustify_types.h"
+
+#include <cstdio>
+#include <cstdlib>
+#include <cstring>
+
+namespace verif
+{
+
+struct state_t
+{
+   FILE       *fp        = nullptr;
+   bool       tried      = false;
+   bool       want_space = false;
+   bool       want_pass  = false;
+   bool       want_full  = false;
+   const char *last_rule = "";
+   long       out_bytes  = 0;
+   bool       in_output  = false;
+};
+
+
+inline state_t &st()
+{
+   static state_t s;
+
+   return(s);
+}
+
+
+inline FILE *out()
+{
+   state_t &s = st();
+
+   if (!s.tried)
+   {
+      s.tried = true;
+      const char *p = getenv("UNC_VERIF_TRACE");
+
+      if (  p != nullptr
+         && *p != 0)
+      {
+         s.fp         = fopen(p, "ab");
+         s.want_space = getenv("UNC_VERIF_SPACE") != nullptr;
+         s.want_pass  = getenv("UNC_VERIF_PASS") != nullptr;
+         s.want_full  = getenv("UNC_VERIF_FULL") != nullptr;
+      }
+   }
+   return(s.fp);
+}
+
+
+inline void esc_cp(FILE *f, int ch)
+{
+   if (ch == '"')
+   {
+      fputs("\\\"", f);
+   }
+   else if (ch == '\\')
+   {
+      fputs("\\\\", f);
+   }
+   else if (  ch >= 0x20
+           && ch < 0x7f)
+   {
+      fputc(ch, f);
+   }
+   else if (  ch >= 0
+           && ch <= 0xffff)
+   {
+      fprintf(f, "\\u%04x", ch);
+   }
+   else if (  ch > 0xffff
+           && ch <= 0x10ffff)
+   {
+      int v = ch - 0x10000;
+      fprintf(f, "\\u%04x\\u%04x", 0xd800 + (v >> 10), 0xdc00 + (v & 0x3ff));
+   }
+   else
+   {
+      fputs("\\ufffd", f);
+   }
+}
+
+
+inline void esc_text(FILE *f, const UncText &t)
+{
+   fputc('"', f);
+
+   for (int ch : t.get())
+   {
+      esc_cp(f, ch);
+   }
+
+   fputc('"', f);
+}
+
+
+inline void esc_cstr(FILE *f, const char *p)
+{
+   fputc('"', f);
+
+   for ( ; p != nullptr && *p != 0; p++)
+   {
+      esc_cp(f, static_cast<unsigned char>(*p));
+   }
+
+   fputc('"', f);
+}
+
+
+//! FNV-1a over code points, rendered as a hex string by the caller
+struct dig_t
+{
+   unsigned long long h = 1469598103934665603ULL;
+   unsigned long      n = 0;
+
+
+   void add(int v)
+   {
+      h ^= static_cast<unsigned long long>(static_cast<unsigned int>(v));
+      h *= 1099511628211ULL;
+   }
+
+
+   void add_text(const UncText &t)
+   {
+      for (int ch : t.get())
+      {
+         add(ch);
+      }
+
+      add(-1);
+      n++;
+   }
+};
+
+
+inline void globals(FILE *f)
+{
+   fprintf(f, "\"lang\":%zu,\"forced\":%d,\"unc_off\":%d,\"unc_off_used\":%d,"
+           "\"pp_level\":%d,\"in_preproc\":%d,\"le\":[%u,%u,%u],\"changes\":%d,"
+           "\"al_cnt\":%zu,\"did_newline\":%d,\"ncnl\":%d,\"ifdef_whole\":%d,"
+           "\"last_char\":%d,\"spaces\":%d,\"column\":%zu,\"frag\":%d,\"bom\":%d,\"enc\":%d,"
+           "\"qt_found\":%d,\"qt_restore\":%d,\"nchunks\":%d,\"check_fail\":%d,\"bout\":%ld",
+           cpd.lang_flags, cpd.lang_forced ? 1 : 0, cpd.unc_off ? 1 : 0, cpd.unc_off_used ? 1 : 0,
+           cpd.pp_level, static_cast<int>(cpd.in_preproc),
+           cpd.le_counts[0], cpd.le_counts[1], cpd.le_counts[2], cpd.changes,
+           cpd.al_cnt, cpd.did_newline ? 1 : 0, cpd.preproc_ncnl_count, cpd.ifdef_over_whole_file,
+           cpd.last_char, static_cast<int>(cpd.spaces), cpd.column, cpd.frag ? 1 : 0,
+           cpd.bom ? 1 : 0, static_cast<int>(cpd.enc),
+           QT_SIGNAL_SLOT_found ? 1 : 0, restoreValues ? 1 : 0,
+           Chunk::GetHead()->IsNotNullChunk() ? 1 : 0, cpd.check_fail_cnt,
+           (cpd.bout != nullptr) ? static_cast<long>(cpd.bout->size()) : -1L);
+}
+
+
+inline void file_event(const char *ev, const char *name)
+{
+   FILE *f = out();
+
+   if (f == nullptr)
+   {
+      return;
+   }
+   fprintf(f, "{\"e\":\"%s\",\"file\":", ev);
+   esc_cstr(f, name);
+   fputc(',', f);
+   globals(f);
+   fputs("}\n", f);
+   fflush(f);
+}
+
+
+/**
+ * Dumps the chunk list: one array per chunk
+ * [type, text, nl_count, preproc, orig_line, orig_col, orig_col_end, orig_prev_sp,
+ *  column, column_indent, level, brace_level, pp_level, after_tab, parent_type, nl_column]
+ */
+inline void dump_chunks(const char *ev)
+{
+   FILE *f = out();
+
+   if (f == nullptr)
+   {
+      return;
+   }
+   fprintf(f, "{\"e\":\"%s\",\"newline\":", ev);
+   esc_text(f, cpd.newline);
+   fprintf(f, ",\"le\":[%u,%u,%u],\"unc_off\":%d,\"enc\":%d,\"bom\":%d,\"frag_cols\":%u,\"chunks\":[",
+           cpd.le_counts[0], cpd.le_counts[1], cpd.le_counts[2], cpd.unc_off ? 1 : 0,
+           static_cast<int>(cpd.enc), cpd.bom ? 1 : 0, cpd.frag_cols);
+   bool first = true;
+
+   for (Chunk *pc = Chunk::GetHead(); pc->IsNotNullChunk(); pc = pc->GetNext())
+   {
+      if (!first)
+      {
+         fputc(',', f);
+      }
+      first = false;
+      fprintf(f, "[\"%s\",", get_token_name(pc->GetType()));
+      esc_text(f, pc->GetStr());
+      fprintf(f, ",%zu,%d,%zu,%zu,%zu,%zu,%zu,%zu,%zu,%zu,%zu,%d,\"%s\",%zu]",
+              pc->GetNlCount(), pc->TestFlags(PCF_IN_PREPROC) ? 1 : 0,
+              pc->GetOrigLine(), pc->GetOrigCol(), pc->GetOrigColEnd(), pc->GetOrigPrevSp(),
+              pc->GetColumn(), pc->GetColumnIndent(), pc->GetLevel(), pc->GetBraceLevel(),
+              pc->GetPpLevel(), pc->GetAfterTab() ? 1 : 0,
+              get_token_name(pc->GetParentType()), pc->GetNlColumn());
+   }
+
+   fputs("]}\n", f);
+   fflush(f);
+}
+
+
+/**
+ * After a pass: order sensitive digests of the five projections the pass
+ * contracts speak about.
+ */
+inline void pass(const char *name, int iter)
+{
+   FILE *f = out();
+
+   if (  f == nullptr
+      || !st().want_pass)
+   {
+      return;
+   }
+   dig_t tok, cmt, str, nl, ign, chars;
+
+   for (Chunk *pc = Chunk::GetHead(); pc->IsNotNullChunk(); pc = pc->GetNext())
+   {
+      E_Token t = pc->GetType();
+
+      if (  t == CT_NEWLINE
+         || t == CT_NL_CONT)
+      {
+         nl.add(static_cast<int>(pc->GetNlCount()));
+         nl.add(t == CT_NL_CONT ? 1 : 0);
+         nl.n++;
+      }
+      else if (pc->IsComment())
+      {
+         cmt.add_text(pc->GetStr());
+      }
+      else if (t == CT_IGNORED)
+      {
+         ign.add_text(pc->GetStr());
+      }
+      else if (pc->Len() > 0)
+      {
+         if (  t == CT_STRING
+            || t == CT_STRING_MULTI
+            || t == CT_CHAR)
+         {
+            str.add_text(pc->GetStr());
+         }
+         tok.add_text(pc->GetStr());
+
+         for (int ch : pc->GetStr().get())
+         {
+            if (  ch != ' '
+               && ch != '\t'
+               && ch != '\n'
+               && ch != '\r')
+            {
+               chars.add(ch);
+               chars.n++;
+            }
+         }
+      }
+   }
+
+   fprintf(f, "{\"e\":\"Pass\",\"name\":\"%s\",\"iter\":%d,\"changes\":%d,"
+           "\"tok\":\"%llx\",\"ntok\":%lu,\"chars\":\"%llx\",\"nchars\":%lu,\"cmt\":\"%llx\",\"ncmt\":%lu,"
+           "\"str\":\"%llx\",\"nstr\":%lu,\"nl\":\"%llx\",\"nnl\":%lu,\"ign\":\"%llx\",\"nign\":%lu}\n",
+           name, iter, cpd.changes, tok.h, tok.n, chars.h, chars.n, cmt.h, cmt.n,
+           str.h, str.n, nl.h, nl.n, ign.h, ign.n);
+
+   if (st().want_full)
+   {
+      dump_chunks(name);
+   }
+   fflush(f);
+} // pass
+
+
+inline void set_rule(const char *rule)
+{
+   st().last_rule = rule;
+}
+
+
+inline void space(Chunk *pc, Chunk *next, int av, int min_sp, size_t col_before, size_t col_after)
+{
+   FILE *f = out();
+
+   if (  f == nullptr
+      || !st().want_space)
+   {
+      return;
+   }
+   fprintf(f, "{\"e\":\"Space\",\"l1\":%zu,\"c1\":%zu,\"t1\":\"%s\",\"s1\":",
+           pc->GetOrigLine(), pc->GetOrigCol(), get_token_name(pc->GetType()));
+   esc_text(f, pc->GetStr());
+   fprintf(f, ",\"l2\":%zu,\"c2\":%zu,\"t2\":\"%s\",\"s2\":",
+           next->GetOrigLine(), next->GetOrigCol(), get_token_name(next->GetType()));
+   esc_text(f, next->GetStr());
+   fputs(",\"rule\":", f);
+   esc_cstr(f, st().last_rule);
+   fprintf(f, ",\"av\":%d,\"force\":%d,\"min_sp\":%d,\"d\":%ld,\"oce1\":%zu,\"pp\":%d,\"lang\":%zu}\n",
+           av, pc->TestFlags(PCF_FORCE_SPACE) ? 1 : 0, min_sp,
+           static_cast<long>(col_after) - static_cast<long>(col_before),
+           pc->GetOrigColEnd(), pc->TestFlags(PCF_IN_PREPROC) ? 1 : 0, cpd.lang_flags);
+   st().last_rule = "";
+}
+
+
+inline void exit_event()
+{
+   FILE *f = out();
+
+   if (f == nullptr)
+   {
+      return;
+   }
+   fprintf(f, "{\"e\":\"Exit\",\"in_output\":%d,\"stage\":%d}\n",
+           st().in_output ? 1 : 0, static_cast<int>(cpd.unc_stage));
+   fflush(f);
+}
+
+} // namespace verif
+
+#define VSTEP(name)          verif::pass((name), 0)
+#define VSTEP_I(name, it)    verif::pass((name), (it))
+
+#else /* UNC_VERIF */
+
+#define VSTEP(name)
+#define VSTEP_I(name, it)
+
+#endif /* UNC_VERIF */
+
+#endif /* VERIF_TRACE_H_INCLUDED */
